@@ -208,3 +208,33 @@ Theorem copy_restores_identically : forall tid src dst snaps (src_plain dst_plai
     map (fun i => dst_plain (Data, i)) (n_content n) = map (fun i => src_plain (Data, i)) (n_content n).
 Proof. exact copy_restores_identically_lemma. Qed.
 Print Assumptions copy_restores_identically.
+
+(* COPY FROM ANY SOURCE.  Without the premise that the source is closed: every reachable blob the source index
+   knows ends up in the destination index, and copy requests only blobs the source knows and the destination
+   lacks (ids unknown to the source are skipped by `filter_map` — read from copy.rs): the destination becomes
+   exactly as closed as the source.  copy_closed is the special case of a closed source. *)
+Theorem copy_closed_relative : forall tid src dst snaps es s,
+  Verif.C13.Model.run Verif.C13.Model.init es = Some s -> Verif.C13.Model.final s = true ->
+  (forall b, In b (needed tid src dst snaps) -> In (conv b) (Verif.C13.Model.requested s)) ->
+  (forall b, In b (flat_map (reach tid) snaps) -> has src b = true -> has (dst ++ indexed_blobs s) b = true) /\
+  (forall b, In b (needed tid src dst snaps) -> has src b = true /\ has dst b = false).
+Proof. exact copy_closed_relative_lemma. Qed.
+Print Assumptions copy_closed_relative.
+
+(* REPAIR, MISSING SUBTREES.  One step of the modifier on a directory node (any path, any metadata): if the
+   subtree cannot be loaded the directory stays, with its name and metadata, as an EMPTY directory (flagged as a
+   change unless the lost tree was the empty tree); a directory node without subtree id becomes a directory with
+   the empty tree; a directory whose subtree loads keeps name and metadata and carries the repaired subtree. *)
+Theorem repair_missing_subtree : forall has_data mark resize readable path a m t c s,
+  (readable s = false ->
+     modify_node (rp_visit has_data mark resize) readable path (Node a KDir m t c s)
+       = (Some (Node a KDir m t c []), negb (tree_eqb [] s)) \/
+     modify_node (rp_visit has_data mark resize) readable path (Node a KDir m t c s)
+       = (Some (Node a KDir m t c s), false) /\ s = []) /\
+  modify_node (rp_visit has_data mark resize) readable path (Node a KDirNoSub m t c s)
+    = (Some (Node a KDir m t c []), true) /\
+  (readable s = true ->
+     fst (modify_node (rp_visit has_data mark resize) readable path (Node a KDir m t c s))
+       = Some (Node a KDir m t c (result_tree s (modify_tree (rp_visit has_data mark resize) readable (path ++ [a]) s)))).
+Proof. exact repair_missing_subtree_lemma. Qed.
+Print Assumptions repair_missing_subtree.
